@@ -617,7 +617,7 @@ public:
 
   friend class kll_sketch<T, C, A>;
   const_iterator& operator++();
-  const_iterator& operator++(int);
+  const_iterator operator++(int);
   bool operator==(const const_iterator& other) const;
   bool operator!=(const const_iterator& other) const;
   reference operator*() const;
